@@ -208,7 +208,8 @@ class TileManager(object):
             creator = self.creator(dimensions=dimensions)
             created_tiles = creator.create_tiles(uncached_tiles)
             if not created_tiles and self.rescale_tiles:
-                created_tiles = [self._scaled_tile(t, rescale_till_zoom, rescaled_tiles) for t in uncached_tiles]
+                created_tiles = [self._scaled_tile(t, rescale_till_zoom, rescaled_tiles, dimensions=dimensions)
+                                 for t in uncached_tiles]
 
             for created_tile in created_tiles:
                 if created_tile.coord in tiles:
@@ -290,7 +291,7 @@ class TileManager(object):
             tile = img_filter(tile)
         return tile
 
-    def _scaled_tile(self, tile, stop_zoom, rescaled_tiles):
+    def _scaled_tile(self, tile, stop_zoom, rescaled_tiles, dimensions=None):
         """
         Try to load tile by loading, scaling and clipping tiles from zoom levels above or
         below. stop_zoom determines if tiles from above should be scaled up, or if tiles
@@ -325,6 +326,7 @@ class TileManager(object):
 
         tile_collection = self._load_tile_coords(
             affected_tiles,
+            dimensions=dimensions,
             rescale_till_zoom=stop_zoom,
             rescaled_tiles=rescaled_tiles,
         )
@@ -342,7 +344,7 @@ class TileManager(object):
         tile.source = tiled_image.transform(tile_bbox, self.grid.srs, self.grid.tile_size, self.image_opts)
 
         if self.cache_rescaled_tiles:
-            self.cache.store_tile(tile)
+            self.cache.store_tile(tile, dimensions=dimensions)
         return tile
 
 
